@@ -96,6 +96,16 @@ pub fn dec_f64(v: &Value) -> f64 {
             _ => {}
         }
     }
+    if let (Some(a), Some(b)) = (v.get("num").and_then(|x| x.as_i64()), v.get("den").and_then(|x| x.as_i64())) {
+        // correctly rounded quotient of two integers, optionally stepped by `ulp` units in the last place
+        let mut x = a as f64 / b as f64;
+        let steps = v.get("ulp").and_then(|x| x.as_i64()).unwrap_or(0);
+        for _ in 0..steps.abs() {
+            let bits = x.to_bits();
+            x = if (steps > 0) == (x > 0.0) { f64::from_bits(bits + 1) } else { f64::from_bits(bits - 1) };
+        }
+        return x;
+    }
     if let Some(d) = v.get("dec").and_then(|t| t.as_str()) {
         return d.parse::<f64>().expect("dec");
     }
